@@ -1067,6 +1067,11 @@ def build_convs(case, pport):
         if scn == 'auth_ok':
             return [('send', get(b'/len/%d' % sz, b'Proxy-Authorization: Basic dXNlcjpwYXNz\r\n')), ('http',),
                     ('shut',), ('eof',)]
+        if scn == 'raised_pending':
+            # finding D17, live form (NOT in the corpus: byte counts depend on kernel buffer sizes): the client
+            # does not read a large response, then sends a follow-up request that makes the pipeline parser raise
+            return [('send', get(b'/len/%d' % sz)), ('sleep', 1.0),
+                    ('send', get(b'/len/1', b'Content-Length: x\r\n')), ('sleep', 0.3), ('eof',)]
         if scn == 'client_closes_idle':
             return [('shut',), ('eof',)]
         if scn == 'mixed':
@@ -1624,10 +1629,8 @@ def neighbours(case):
                 e = case['exp'][:i] + case['exp'][i + 1:]
                 e[0] = 0
                 yield dict(case, ticks=t[:i] + t[i + 1:], exp=e)
-    elif case['kind'] == 'live':
-        for nw in (1, 2):
-            if nw != case['nw']:
-                yield dict(case, nw=nw)
+    # live cases have no neighbours: every observation costs three Proxy starts, and the quick live
+    # corpus is part of search() (observed in one batch, cached)
 
 
 def search(rng):
